@@ -164,3 +164,40 @@ Proof.
   exists [(bs "zz_generated.x.go", w1_s1)]. repeat split; try (vm_compute; reflexivity);
     vm_compute; intros H; discriminate H.
 Qed.
+
+(* ---- the composed system (Model/Whole.v, Props/Whole.v): this file's model and the pipeline model are one ----
+   The pipeline model (C07 / C05 / C02) assembles and writes generated files too; its reading of genfile.go is the
+   [imports = []] instance of this file's: same assembled source byte for byte, and with its formatter parameter
+   instantiated by this file's (fmt1, then fmt2 until stable) the same decision for every WriteToFile. *)
+Require Gengo.Model.Pipeline Gengo.Model.Whole Gengo.Proofs.WholeGenFile Gengo.Props.Whole.
+
+Theorem C01_whole_pipeline_assemble_is_assemble :
+  forall pkg gen body, Pipeline.assemble pkg gen body = assemble pkg gen [] body.
+Proof. exact Gengo.Props.Whole.Whole_assemble_is_genfile_assemble. Qed.
+Print Assumptions C01_whole_pipeline_assemble_is_assemble.
+
+Theorem C01_whole_pipeline_write_is_write_file :
+  forall (E : Pipeline.env) fmt1 fmt2, Pipeline.e_fmt E = Whole.genfile_fmt fmt1 fmt2 ->
+  forall a p gf,
+    write_file fmt1 fmt2 true (Pipeline.a_base a) (Pipeline.pk_name p) (Whole.genfile_of gf)
+    = if is_nil (snd gf) then WNothing
+      else match Pipeline.e_fmt E (Pipeline.assemble (Pipeline.pk_name p) (fst gf) (snd gf)) with
+           | None => WErr
+           | Some out => WWrite (Pipeline.fname a (fst gf)) out
+           end.
+Proof. exact Gengo.Props.Whole.Whole_write_file_is_genfile_write_file. Qed.
+Print Assumptions C01_whole_pipeline_write_is_write_file.
+
+(* ... and the write loops (context.go 223-231) leave the same package directory, or both fail *)
+Theorem C01_whole_pipeline_write_loop_is_write_all :
+  forall (E : Pipeline.env) fmt1 fmt2, Pipeline.e_fmt E = Whole.genfile_fmt fmt1 fmt2 ->
+  forall a p gfs rem fsys s,
+    WholeGenFile.dir_rel p fsys s ->
+    match write_all fmt1 fmt2 true (Pipeline.a_base a) (Pipeline.pk_name p) (map Whole.genfile_of gfs) fsys,
+          Pipeline.write_loop_fs E a p gfs rem s with
+    | None, (_, _, Some (Pipeline.EParse _)) => True
+    | Some fsys', (s', _, None) => WholeGenFile.dir_rel p fsys' s'
+    | _, _ => False
+    end.
+Proof. exact Gengo.Props.Whole.Whole_write_loop_is_genfile_write_all. Qed.
+Print Assumptions C01_whole_pipeline_write_loop_is_write_all.
